@@ -209,6 +209,8 @@ struct Runner {
     auto still = [&](const std::vector<uint8_t> &cand) {
       Tape t(cand);
       Result r;
+      alarm(case_timeout);
+      journal(cand.data(), cand.size(), 'T');
       if (prop->isolated)
         t.i = run_isolated(cand, r);
       else
@@ -311,14 +313,11 @@ inline Runner *&g_runner() {
 }
 
 inline void on_alarm(int) {
+  // async-signal-safe only: the interrupted code may hold the allocator's lock (an earlier version dumped the decoded
+  // case here and dead-locked under ASan). The driver recovers the case from the journalled tape.
   const char m[] = "VERIF-TIMEOUT: a single case exceeded the hang guard\n";
   ssize_t w = write(2, m, sizeof m - 1);
   (void)w;
-  // not async-signal-safe, but the process is about to exit and the decoded case is worth having
-  if (g_current() && g_current()->sample.t != J::NUL) {
-    std::string d = "VERIF-TIMEOUT-CASE: " + g_current()->sample.dump() + "\n";
-    w = write(2, d.data(), d.size());
-  }
   _exit(3);
 }
 
@@ -666,16 +665,22 @@ inline int harness_main(int argc, char **argv) {
   if (mode == "rc") {
     if (prop->isolated) runner.shrink_budget = 80;
     int passed = verif_rc_run(rc_body, &runner, prop->maxlen);
-    alarm(0);
+    alarm(runner.case_timeout);  // the post-shrink candidates below run under the hang guard too
     if (runner.harness_error) {
       runner.write_out("rc");
       fprintf(stderr, "HARNESS-ERROR: %s\n", runner.harness_error_msg.c_str());
       return 2;
     }
     if (!passed && runner.have_last_fail) {
+      // a failure is on record before the (hang-guarded) post-shrink starts, so a candidate that never returns
+      // cannot take the finding with it
+      runner.failures.push_back(runner.last_fail);
+      runner.write_out("rc");
+      runner.failures.pop_back();
       runner.post_shrink();
       runner.failures.push_back(runner.last_fail);
     }
+    alarm(0);
     runner.write_out("rc");
     return runner.failures.empty() ? 0 : 1;
   }
@@ -778,7 +783,8 @@ inline int harness_main(int argc, char **argv) {
       printf("SHRINK: journalled case does not fail when re-run in isolation\n");
       return 0;
     }
-    std::vector<uint8_t> small = shrink_forked(*prop, tape, o.sig);
+    // a case that runs into the time limit is kept as it is: every shrinking candidate would cost the full limit
+    std::vector<uint8_t> small = o.sig.rfind("crash:timeout", 0) == 0 ? tape : shrink_forked(*prop, tape, o.sig);
     ForkOutcome o2 = run_forked(*prop, small);
     if (!o2.failed) {
       small = tape;
